@@ -511,7 +511,9 @@ def check(run):
         far = (not on_am) and rng.random() < 0.08   # a point 150..210 degrees of longitude away, small turn
         if far:
             olat = rng.uniform(-20, 20)
-            p = C(olon + rng.choice([-1, 1]) * rng.uniform(150, 210), olat + rng.uniform(-5, 5))
+            # (not within 8 degrees of the 180-degree un-wrapping seam: a rotation that carries the point across it is
+            # re-un-wrapped by the next call and the planar picture around the origin changes)
+            p = C(olon + rng.choice([-1, 1]) * rng.choice([rng.uniform(150, 172), rng.uniform(188, 210)]), olat + rng.uniform(-5, 5))
             pts = [p.longitude, p.latitude]
         deg = rng.choice([rng.uniform(-720, 720), 90.0, 180.0, 0.0, -90.0, 360.0, 45.0])
         if far:
